@@ -352,6 +352,66 @@ def var_name(fn, vid):
     return names.get(vid, "v%d" % vid)
 
 
+def array_contract(fn):
+    """implicit entry contract of a function that fills a fixed-size local limb array with an amount that depends on its parameters
+    (mpn_sb_get_str: MPN_COPY (rp + 1, up, un) into rp[GET_STR_PRECOMPUTE_THRESHOLD] needs un + 1 <= the threshold): the constraint
+    counts only if every path from entry to exit passes through a write that implies it"""
+    import aliasflow
+    if not any(e.get("k") == "decl" and any(aliasflow._ARR.match(d["var"].get("ct", "")) for d in e["decls"])
+               for b in fn["blocks"] for el in b["elems"] for e in (el["e"],)):
+        return []
+    a = aliasflow.Analysis(fn, "", lambda f: None, collections.Counter())
+    try:
+        a.run()
+    except AnalysisBroken:
+        return []
+    if not a.implied:
+        return []
+    pidx = {p["id"]: i for i, p in enumerate(fn["params"])}
+    asg = assigned_lines(fn)
+    by = collections.defaultdict(set)
+    info = {}
+    for need, line, bid, arr in a.implied:
+        by[need].add(bid)
+        info.setdefault(need, (line, arr))
+    blocks = sa.blocks_by_id(fn)
+    _, preds = r_divzero.dominators(fn)
+    # the inline copy / fill macros guard their body with `if ((n) != 0)`: skipping an empty copy does not avoid the constraint
+    for need, bids in by.items():
+        for bid in list(bids):
+            for p_ in preds.get(bid, ()):
+                t = blocks[p_].get("term") or {}
+                if any(m in aliasflow.Analysis.INLINE_FILLS for m in (t.get("m") or [])):
+                    bids.add(p_)
+    out = []
+    for need, bids in by.items():
+        # unavoidable: the exit is unreachable from the entry once the generating blocks are removed
+        seen, work = {fn["entry"]}, [fn["entry"]]
+        reach = False
+        while work:
+            x = work.pop()
+            if x in bids:
+                continue
+            if x == fn["exit"]:
+                reach = True
+                break
+            if blocks[x].get("noreturn"):
+                continue
+            for s_ in blocks[x]["succs"]:
+                if isinstance(s_, int) and s_ not in seen:
+                    seen.add(s_)
+                    work.append(s_)
+        if reach:
+            continue
+        line, arr = info[need]
+        vs = {sym[1] for sym, _ in need[1]}
+        if any(l < line for v in vs for l in asg.get(v, [])):
+            continue                                      # the parameter is modified before the write
+        txt = "extent of local array %s[] (line %d)" % (arr, line)
+        out.append(((need[0], frozenset((("p", pidx[sym[1]]), k) for sym, k in need[1])), txt, line))
+    return out
+
+
 def extract_contracts(ex):
     contracts = {}
     for path, fn in ex.functions():
@@ -359,7 +419,7 @@ def extract_contracts(ex):
             continue
         dom, preds = r_divzero.dominators(fn)
         exits = list(preds.get(fn["exit"], ()))
-        c = entry_contract(fn, dom, exits)
+        c = entry_contract(fn, dom, exits) + array_contract(fn)
         if c:
             contracts[fn["name"]] = c
     return contracts
